@@ -47,7 +47,9 @@ RULE = ("same harness as C06 (bin c06, driver drv_c06), seeds shifted so the two
         "under loop updates; full two-/three-variable matrices symmetric except for one (idx, ~idx) pair placed in every quarter of the index range, "
         "with the gate oracle that no plain cluster update runs while a term is asymmetric (all 4^n entries compared). Direct swaps use swap_manager_and_state and the SwapManagers trait between hot and fresh samplers. Serial tempering ladders mix a "
         "zero-field replica with field replicas of one sign (>= 30 rounds of [steps; tempering_step], every replica judged with its own Hamiltonian). "
-        "Mode loop-scripted-exit: every draw position of recorded loop updates (exchange-type, 3-variable, mixed generic samplers) re-run with the word "
+        "Mode zero-word-all-updates: every draw position of recorded heat-bath and Metropolis diagonal sweeps, cluster steps, RVB updates and "
+        "free-spin refreshes of both samplers re-run with the word 0 / 2^11 / u64::MAX. Walks include Ising samplers with Gamma = 0 (h != 0 and h = 0) "
+        "converted by into_qmc and walked on. Mode loop-scripted-exit: every draw position of recorded loop updates (exchange-type, 3-variable, mixed generic samplers) re-run with the word "
         "0 / 2^11 (draw exactly 0.0), the largest word and words at and next to cumulative boundaries of the exit-leg weights. Ising walks include "
         "graphs with a variable without real coupling (index gap, or only J = 0 edges) under RVB with h of both signs. Mode swap-guard-witness: one fixed input reproducing known finding F25 (guard approves h = 0 with h != 0). "
         "Non-trivial = at least one operator before or after.")
@@ -62,6 +64,9 @@ def main(ck):
         ck.correspond("walk", "drv_c06", cases)
         cases = ck.harness("c06", ["f12"])
         ck.correspond("rvb-zero-word", "drv_c06", cases)
+        # every draw position of heat-bath / Metropolis sweeps, cluster, RVB and refresh calls (both samplers) replaced
+        # in turn by 0, 2^11 (f64 draw exactly 0.0) and u64::MAX: no exact tie may store a zero-weight op
+        ck.correspond("zero-word-all-updates", "drv_c06", ck.harness("c06", ["zeroword"]))
         # scripted exit-leg draws of the loop update (0.0 exactly, largest word, cumulative boundaries)
         ck.correspond("loop-scripted-exit", "drv_c06", ck.harness("c06", ["loopzero"]))
         # fixed, seed-independent witness of finding F25 (can_swap_managers accepts h = 0 with h != 0): the
